@@ -376,12 +376,15 @@ fn enumerate(w: &mut World, prop: &str, seed: u64, extra: &mut BTreeMap<&'static
                     let Some(e) = wk.reftable.get(rti).copied() else {
                         return false;
                     };
-                    if e == 0 {
-                        // the refblock is not even reachable: its reftable
-                        // entry would be the racing write
-                        return false;
-                    }
-                    let rcl = e / cs;
+                    // where the missing refcount would be written: the refblock
+                    // cluster, or - when the refblock is not reachable yet -
+                    // the refcount table block holding its entry
+                    let (r_lo, r_hi) = if e == 0 {
+                        let a = wk.hdr.rt_off / cs;
+                        (a, a + wk.hdr.rt_clusters as u64 - 1)
+                    } else {
+                        (e / cs, e / cs)
+                    };
                     // the refcount block write was not even submitted yet when
                     // the table write of the same API call went out: another
                     // sub-request had claimed the dirty slice (cleared its
@@ -389,8 +392,8 @@ fn enumerate(w: &mut World, prop: &str, seed: u64, extra: &mut BTreeMap<&'static
                     let late = tl.reqs.iter().any(|w1| {
                         w1.kind == crate::sim::ReqKind::Write
                             && w1.len > 0
-                            && w1.off / cs <= rcl
-                            && (w1.off + w1.len as u64 - 1) / cs >= rcl
+                            && w1.off / cs <= r_hi
+                            && (w1.off + w1.len as u64 - 1) / cs >= r_lo
                             && tl.reqs.iter().any(|w2| {
                                 w2.kind == crate::sim::ReqKind::Write
                                     && w2.api_op == w1.api_op
@@ -406,7 +409,7 @@ fn enumerate(w: &mut World, prop: &str, seed: u64, extra: &mut BTreeMap<&'static
                     }
                     cp.vols.iter().zip(&c.sel).any(|(v1, sel1)| {
                         let w1 = tl.reqs[v1.req];
-                        let in_r = w1.len > 0 && w1.off / cs <= rcl && (w1.off + w1.len as u64 - 1) / cs >= rcl;
+                        let in_r = w1.len > 0 && w1.off / cs <= r_hi && (w1.off + w1.len as u64 - 1) / cs >= r_lo;
                         if !in_r || sel1.iter().all(|b| *b) {
                             return false;
                         }
